@@ -151,6 +151,10 @@ pub struct World {
     pub drained: u64,
     /// the reporter itself traces from inside `report()` (programs named "...+rt")
     pub reporter_traces: bool,
+    /// receivers that were already registered when the execution began (leftovers of earlier
+    /// executions in this process): draining them is not a scheduling point
+    pub baseline_receivers: usize,
+    pub draining_index: usize,
 }
 
 impl World {
@@ -168,6 +172,8 @@ impl World {
             total_reports: 0,
             drained: 0,
             reporter_traces: false,
+            baseline_receivers: 0,
+            draining_index: 0,
         }
     }
 
@@ -185,8 +191,12 @@ impl World {
         match &a.pending {
             None => false,
             Some(Pending::Wait(f)) => self.flags.contains(f),
-            Some(Pending::RegisterReceiver) => !self.drain_in_progress,
-            Some(Pending::CycleLock) | Some(Pending::Flush) => !self.cycle_in_progress,
+            // Mutexes are modelled as enabledness, and the model asks the real locks: a thread
+            // that would block on a mutex held by a paused actor is simply not scheduled. (Using
+            // the real lock state rather than "a drain is in progress" keeps the model faithful to
+            // whatever the code actually locks, and for how long.)
+            Some(Pending::RegisterReceiver) => !fastrace::verif::registry_locked(),
+            Some(Pending::CycleLock) | Some(Pending::Flush) => !fastrace::verif::collector_locked(),
             Some(_) => true,
         }
     }
@@ -335,13 +345,20 @@ fn hook(p: &Point) {
         Point::RegisterReceiver => s.yield_at(me, Pending::RegisterReceiver),
         Point::CycleLock => s.yield_at(me, Pending::CycleLock),
         Point::DrainReceiver { index } => {
-            let atomic = s.world().actors[me].atomic_cycles;
+            let atomic = {
+                let mut w = s.world();
+                w.draining_index = *index;
+                w.actors[me].atomic_cycles || *index < w.baseline_receivers
+            };
             if !atomic {
                 s.yield_at(me, Pending::DrainReceiver { index: *index });
             }
         }
         Point::RecvEmptyBeforeAbandonCheck => {
-            let atomic = s.world().actors[me].atomic_cycles;
+            let atomic = {
+                let w = s.world();
+                w.actors[me].atomic_cycles || w.draining_index < w.baseline_receivers
+            };
             if !atomic {
                 s.yield_at(me, Pending::RecvEmpty);
             }
